@@ -24,6 +24,19 @@ Theorem C05_roundtrip : forall t p v bs,
 Proof. exact dec_enc. Qed.
 Print Assumptions C05_roundtrip.
 
+(* Consequence: on the values the theorem covers the encoding is injective up to
+   [canon] -- two records that differ (other than nil vs empty) never marshal to
+   the same octets. *)
+Theorem C05_injective : forall t p v1 v2 bs,
+  ok t p v1 = true -> ok t p v2 = true -> enc t p v1 = Ok bs -> enc t p v2 = Ok bs ->
+  zlen bs < 2 ^ 32 -> canon t false v1 = canon t false v2.
+Proof.
+  intros t p v1 v2 bs H1 H2 E1 E2 L.
+  pose proof (C05_roundtrip t p v1 bs H1 E1 L) as A.
+  rewrite (C05_roundtrip t p v2 bs H2 E2 L) in A. congruence.
+Qed.
+Print Assumptions C05_injective.
+
 (* OBJECT IDENTIFIER and open types are reported as errors in both directions *)
 Lemma dec_oid p bs : bytes_ok bs = true -> dec TOid p bs = Err.
 Proof.
